@@ -376,7 +376,12 @@ def gen_operator_spec(rng, version=None, rv=None, force_n=None, perm=False):
         bits.add(rv.getrandbits(n) if n else 0, n)
 
     kind = rng.choice(['bitmap', 'bitmap', 'bitmap', 'plain-ops', 'plain-ops', 'bitmap-blocks', 'bitmap-blocks',
-                       'seq-ops', 'wide'])
+                       'seq-ops', 'wide', 'bitmap+203', 'bitmap+204', 'bitmap+dbm', 'bitmap+dbm'])
+    # feature interactions of the bitmap programs: '+203' - new reference values (203YYY) defined for an element
+    # the bitmap refers to, cancelled before the bitmap operator or still in force at the marker operators;
+    # '+204' - an associated field (204YYY) in force at the marker operators; '+dbm' - the bits of the bitmap
+    # stand under a DELAYED replication (factor 0..k, so that a bitmap of no bits at all occurs)
+    variant = kind.split('+')[1] if '+' in kind else None
     if kind == 'bitmap-blocks':
         return _gen_bitmap_blocks_spec(rng, version, b, nums, strs, rv, force_n)
     if kind in ('seq-ops', 'wide'):
@@ -456,25 +461,50 @@ def gen_operator_spec(rng, version=None, rv=None, force_n=None, perm=False):
         prefix = [rng.choice(nums + strs[:8] if rng.random() < 0.5 else nums) for _ in range(k)]
         if rng.random() < 0.5 and strs:
             prefix[rng.randrange(k)] = rng.choice(strs)
+        close_203 = None
+        if variant == '203':
+            # 203YYY e 203255 in front of the elements, e being the last of them (inside the bitmap window)
+            e1 = rng.choice(nums)
+            prefix[-1] = e1
+            y = rng.randint(4, 20)
+            ids += [203000 + y, e1, 203255]
+            rnd(y)
+            close_203 = rng.choice(['before-operator', 'after-markers'])
         for e in prefix:
             ids.append(e)
             rnd(b[e][4])
+        if close_203 == 'before-operator':
+            ids.append(203000)
+        if variant == '204' and 31021 in b:
+            ids += [204000 + rng.randint(1, 8), 31021]
+            rnd(b[31021][4])
         op = rng.choice([222000, 223000, 223000, 224000, 225000, 232000])
         ids.append(op)
         reuse = rng.random() < 0.25
         if reuse:
             ids.append(236000)
         nb = rng.randint(1, k)
-        if lead and rng.random() < 0.4:
+        if lead and rng.random() < 0.4 and variant != 'dbm':
             nb = k + 1                  # the window reaches the last replicated element (when there is one)
             prefix = [e0] + prefix      # (only used below to pick plausible modifiers)
             k += 1
-        ids += [101000 + nb, 31031]
-        bitmap = [rng.choice([0, 0, 1]) for _ in range(nb)]
-        if all(bitmap):
-            bitmap[rng.randrange(nb)] = 0
-        if perm:
-            rv.shuffle(bitmap)      # another arrangement of the same number of set bits: same descriptor list
+        if variant == 'dbm' and 31001 in b:
+            # the number of 031031 is data: z zero bits (as many marker / class 33 values follow - that is the
+            # program), z..k bits in all
+            z = rng.randint(0, min(k, 3))
+            nb = force_n if (force_n is not None and z <= force_n <= k) else rv.randint(z, k)
+            ids += [101000, 31001, 31031]
+            bits.add(nb, b[31001][4])
+            bitmap = [0] * z + [1] * (nb - z)
+            rv.shuffle(bitmap)
+            has_factor = True
+        else:
+            ids += [101000 + nb, 31031]
+            bitmap = [rng.choice([0, 0, 1]) for _ in range(nb)]
+            if all(bitmap):
+                bitmap[rng.randrange(nb)] = 0
+            if perm:
+                rv.shuffle(bitmap)      # another arrangement of the same number of set bits: same descriptor list
         for bit in bitmap:
             bits.add(bit, 1)
         z = bitmap.count(0)
@@ -503,6 +533,11 @@ def gen_operator_spec(rng, version=None, rv=None, force_n=None, perm=False):
             ids += [op + 255] * z
             if mod:
                 ids.append({'w': 201000, 's': 202000, 'b': 207000, 'n': 208000}[mod])
+            if variant == '204' and 31021 in b and rng.random() < 0.8:
+                ids.append(204000)
+            if close_203 == 'after-markers':
+                ids.append(203000)
+                close_203 = None
             if reuse and rng.random() < 0.6:
                 # a second use of the same bitmap
                 ids += [op, 237000]
@@ -511,6 +546,8 @@ def gen_operator_spec(rng, version=None, rv=None, force_n=None, perm=False):
                 if op == 225000 and 8024 in b:
                     ids.append(8024)
                 ids += [op + 255] * z
+        if close_203 == 'after-markers':
+            ids.append(203000)
         if rng.random() < 0.5:
             ids.append(rng.choice(nums))
         data = bits.to_bytes() + bytes(rv.randrange(256) for _ in range(64 + 48 * k))
@@ -519,7 +556,7 @@ def gen_operator_spec(rng, version=None, rv=None, force_n=None, perm=False):
             'subcentre': 0, 'category': rng.choice([0, 2, 6, 12]), 'subcategory': 0, 'local_subcategory': 0,
             'update': 0, 'date': [2021, 2, 3, 4, 5, 6], 'sec2': None, 'pads': {}, 'compressed': False,
             'observed': True, 'raw_ids': ids, 'raw_data': data.hex(), 'nsub': 1, 'opkind': kind,
-            'has_factor': has_factor, 'has_bitmap': kind == 'bitmap'}
+            'has_factor': has_factor, 'has_bitmap': kind.startswith('bitmap')}
 
 
 def _gen_seq_ops_spec(rng, version, b, d, nums, rv, kind):
@@ -997,7 +1034,7 @@ def admit_all(entries, want_values=False):
         if not r['ok']:
             rejected.append({'ref': e['ref'], 'error': r.get('full_error') or r.get('info_error'), 'hex': e['hex'],
                              'full_ok': 'full' in r, 'info_ok': 'info' in r, 'src': e['src'],
-                             'has_truth': 'truth' in e})
+                             'has_truth': 'truth' in e, 'twin': e.get('twin'), 'opkind': e.get('opkind')})
             continue
         e = dict(e)
         e['adm'] = r
